@@ -53,6 +53,13 @@ def templates():
     T["after-loop-returning-under-if"] = main("    i = 0\n    for i in range(n):\n        if c:\n            return i\n    {X}\n    return 7\n")
     T["in-loop-before-return"] = main("    i = 0\n    for i in range(n):\n        {X}\n        return i\n    return 7\n")
     T["in-nested-loop-after-returning-loop"] = main("    i = 0\n    j = 0\n    for i in range(n):\n        for j in range(i):\n            return j\n        {X}\n    return 7\n")
+    # closures that capture a run-time value (the call stays dynamic) and reach the statement through a subroutine,
+    # or that are purely classical and are called after an acting subroutine
+    T["capturing-closure-calls-subroutine"] = main("    def inner(k: int):\n        return sub(k) + n\n    r = inner(1)\n", sub)
+    T["capturing-closure-calls-subroutine-in-loop"] = main("    def inner(k: int):\n        return sub(k) + n\n    acc = 0\n    i = 0\n    for i in range(n):\n        acc = acc + inner(i)\n    return acc\n", sub)
+    T["subroutine-then-classical-capturing-closure"] = main("    r = sub(n)\n    def inner(k: int):\n        return k + n\n    q = inner(2)\n    return q + r\n", sub)
+    T["classical-capturing-closure-then-subroutine"] = main("    def inner(k: int):\n        return k + n\n    q = inner(2)\n    r = sub(n)\n    return q + r\n", sub)
+    T["statement-then-classical-capturing-closure"] = main("    {X}\n    def inner(k: int):\n        return k + n\n    q = inner(2)\n    return q\n")
     # a wrapper that calls a DIFFERENT kernel carrying the same name (user wrapper around a library routine)
     T["same-name-subroutine"] = ("two-step", "@move\ndef prepare(m: int):\n" + PRO + "    {X}\n    return m\n",
                                  "@move\ndef prepare(m: int):\n    return lib_prepare(m)\n\n" + main("    r = prepare(n)\n"))
